@@ -75,11 +75,11 @@ def trace_start_ids(text: str) -> Dict[str, Any]:
         if st is None:
             return {}
         ids_of = lambda r: (r["meta"].get("semantic_id"), r["meta"].get("config_id"), r["meta"].get("node_semantic_ids"), r.get("pipeline_id"),
-                            [n["node_uuid"] for n in r["pipeline_spec_canonical"]["nodes"]])
+                            [n["node_uuid"] for n in (r.get("pipeline_spec_canonical") or {}).get("nodes", [])])
         return {"second_run_differs": len(starts) > 1 and ids_of(starts[1]) != ids_of(starts[0]),
                 "semantic_id": st["meta"].get("semantic_id"), "config_id": st["meta"].get("config_id"),
                 "node_semantic_ids": st["meta"].get("node_semantic_ids"),
-                "uuids": [n["node_uuid"] for n in st["pipeline_spec_canonical"]["nodes"]],
+                "uuids": [n["node_uuid"] for n in (st.get("pipeline_spec_canonical") or {}).get("nodes", [])],
                 "canonical_uuids_from_pipeline": [n["node_uuid"] for n in p.canonical_spec["nodes"]]}
     finally:
         shutil.rmtree(tmp, ignore_errors=True)
@@ -147,6 +147,12 @@ def fresh_process_checks(run: core.Run, texts: List[str], n_env: int) -> None:
                 identities(near)
                 run.extra["near_miss_histories"] = run.extra.get("near_miss_histories", 0) + 1
             ref = json.loads(json.dumps(identities(text), sort_keys=True, default=str))
+            # ... and the identities attached to pipeline_start when this very text runs are the ones inspect shows
+            s_, tr_ = summary(identities(text)), trace_start_ids(text)
+            if tr_ and (tr_["semantic_id"] != s_["semantic_id"] or tr_["config_id"] != s_["config_id"]
+                        or tr_["node_semantic_ids"] != {u: sid for u, sid in s_["nodes"]}):
+                run.violation("inspect-vs-trace:fresh-process-texts", f"inspect shows ({s_['semantic_id'][:16]}, {s_['config_id'][:16]}, {s_['nodes']}) but pipeline_start.meta "
+                              f"carries ({str(tr_['semantic_id'])[:16]}, {str(tr_['config_id'])[:16]}, {tr_['node_semantic_ids']})\n{text}", {"text": text})
             for ei, env in enumerate(envs):
                 cwd = tmp / f"cwd{ei}"
                 cwd.mkdir(exist_ok=True)
